@@ -2,11 +2,14 @@ package aead
 
 import (
 	"crypto/cipher"
+	"fmt"
+	"math/big"
 	"math/rand/v2"
 
 	"golang.org/x/crypto/chacha20poly1305"
 	"verif/guard"
 	"verif/mon"
+	"verif/ref/aead8439"
 )
 
 // ---- dispatch paths ----
@@ -188,4 +191,124 @@ func adClass(n int) string {
 		return "k16"
 	}
 	return "k16+r"
+}
+
+// ---- constructed Poly1305 accumulator values ----
+
+// polyTarget names a value the TRUE final Poly1305 accumulator h (fully
+// reduced, before s is added) is steered to. val may depend on s.
+type polyTarget struct {
+	fam, name string
+	val       func(s *big.Int) *big.Int
+}
+
+var (
+	big2p64  = new(big.Int).Lsh(big.NewInt(1), 64)
+	big2p128 = new(big.Int).Lsh(big.NewInt(1), 128)
+)
+
+// polyTargets: (1) h in {0..4}: an implementation that reduces lazily holds
+// h+p in [p, 2^130) when it reaches the final conditional subtraction (low limb
+// >= 2^64-5, middle limb all ones, top limb 3); (2) h in {p-5..p-1}: largest
+// values for which the subtraction must NOT happen; (3) h whose low 128 bits
+// plus s are 2^128-1, 2^128, 2^128+1 (carry out of the tag addition), with top
+// bits 0, 1, 3; (4) limb boundaries of the subtraction's borrow chain.
+func polyTargets() []polyTarget {
+	var ts []polyTarget
+	for t := int64(0); t < 5; t++ {
+		t := t
+		ts = append(ts, polyTarget{"band[p,2^130)", fmt.Sprintf("h=%d", t), func(*big.Int) *big.Int { return big.NewInt(t) }})
+	}
+	for t := int64(1); t <= 5; t++ {
+		t := t
+		ts = append(ts, polyTarget{"below-p", fmt.Sprintf("h=p-%d", t), func(*big.Int) *big.Int { return new(big.Int).Sub(aead8439.P1305(), big.NewInt(t)) }})
+	}
+	for _, k := range []int64{0, 1, 3} {
+		for _, d := range []int64{-1, 0, 1} {
+			k, d := k, d
+			ts = append(ts, polyTarget{"tag-add-carry", fmt.Sprintf("h=%d*2^128+(2^128-s%+d)", k, d), func(s *big.Int) *big.Int {
+				lo := new(big.Int).Sub(big2p128, s)
+				lo.Add(lo, big.NewInt(d))
+				lo.Mod(lo, big2p128)
+				h := new(big.Int).Mul(big.NewInt(k), big2p128)
+				h.Add(h, lo)
+				if h.Cmp(aead8439.P1305()) >= 0 {
+					return lo
+				}
+				return h
+			}})
+		}
+	}
+	for _, k := range []int64{0, 1, 2} {
+		for _, d := range []int64{0, 4} {
+			k, d := k, d
+			ts = append(ts, polyTarget{"limb-boundary", fmt.Sprintf("h=%d*2^128+2^128-5+%d", k, d), func(*big.Int) *big.Int {
+				h := new(big.Int).Mul(big.NewInt(k+1), big2p128)
+				return h.Add(h, big.NewInt(d-5))
+			}})
+		}
+	}
+	for _, d := range []int64{-5, -1} {
+		d := d
+		ts = append(ts, polyTarget{"limb-boundary", fmt.Sprintf("h=2^64%+d", d), func(*big.Int) *big.Int { return new(big.Int).Add(big2p64, big.NewInt(d)) }})
+	}
+	return ts
+}
+
+// constructedMsg is an AEAD input whose Poly1305 accumulator ends at a chosen value.
+type constructedMsg struct {
+	key, nonce, ad, pt []byte
+	target             *big.Int
+	tries              int
+	solvedIn           string // "ct" or "ad"
+}
+
+// constructAEAD picks key/nonce/ad/plaintext at random and then solves one
+// 16-byte block — the last full ciphertext block (the plaintext is the
+// ciphertext XOR the ref key stream), or for payloads shorter than 16 bytes the
+// last full AD block — so that the executable spec's final accumulator equals
+// tgt. About one attempt in four yields a 128-bit solution; attempts are
+// bounded. The result is verified against aead8439.Poly1305Acc.
+func constructAEAD(r *rand.Rand, kind, n, adlen int, tgt polyTarget) (*constructedMsg, bool) {
+	if n < 16 && adlen < 16 {
+		panic("harness: constructAEAD needs a full 16-byte block to solve")
+	}
+	key := mon.Bytes(r, 32)
+	for try := 1; try <= 400; try++ {
+		nonce := mon.Bytes(r, nonceLen(kind))
+		sk, n12 := key, nonce
+		if kind == kindX {
+			sk, n12 = aead8439.XParams(key, nonce)
+		}
+		otk := aead8439.PolyKeyGen(sk, n12)
+		ks := aead8439.Keystream(sk, 1, n12, n)
+		ad := mon.Bytes(r, adlen)
+		ct := mon.Bytes(r, n)
+		target := tgt.val(aead8439.PolyS(otk))
+		mac := aead8439.MacData(ad, ct)
+		j, in := 0, "ct"
+		if n >= 16 {
+			j = (adlen+15)/16 + n/16 - 1
+		} else {
+			j, in = adlen/16-1, "ad"
+		}
+		x, ok := aead8439.SolveBlock(otk, mac, j, target)
+		if !ok {
+			continue
+		}
+		if in == "ct" {
+			copy(ct[16*(n/16-1):], x[:])
+		} else {
+			copy(ad[16*j:], x[:])
+		}
+		if aead8439.Poly1305Acc(otk, aead8439.MacData(ad, ct)).Cmp(target) != 0 {
+			panic("harness: constructed accumulator does not match the target")
+		}
+		pt := make([]byte, n)
+		for i := range pt {
+			pt[i] = ct[i] ^ ks[i]
+		}
+		return &constructedMsg{key: key, nonce: nonce, ad: ad, pt: pt, target: target, tries: try, solvedIn: in}, true
+	}
+	return nil, false
 }
